@@ -3,19 +3,23 @@ from contracts import release as R
 from contracts import state as S
 from contracts import timekeeper as K
 
+from contracts import release_cont as RC
 from contracts import release_init as RI
 
-UNITS = list(R.RELEASE_UNITS) + list(RI.RELEASE_INIT_UNITS) + [S.Append("arrays"), S.Append("broadcast"), K.TKTime2Step()]
-LEMMAS = []
+UNITS = list(R.RELEASE_UNITS) + list(RI.RELEASE_INIT_UNITS) + list(RC.RELEASE_CONT_UNITS) + [S.Append("arrays"), S.Append("broadcast"), K.TKTime2Step()]
+LEMMAS = list(RC.RELEASE_CONT_LEMMAS)
 NATIVE = [dict(name="release tables x windows x discrete/continuous x forward/reversed on the real ParticleReleaser/State/TimeKeeper", harness="release_bounded", kind="bounded")]
-LEVEL = "other"
+LEVEL = "proof"
 LEVEL_TEXT = ("Proved over a ghost release table (pandas operations under stated assumed contracts): the constructor keeps exactly the rows whose release time lies in the window "
               "(mirrored when reversed), defaults mult to 1, refuses exactly when no row is left, computes the steps with time2step and orders the release groups in simulation order "
               "(ascending time forward, descending reversed) -- the order in which update() consumes them; clean_position uses given X, Y, converts lon/lat with grid.ll2xy in the right "
               "order and refuses rows without a position; read_release_file passes the documented parsing options and turns unreadable/missing files into SystemExit(3); update/__next__ "
               "append exactly the rows of the group scheduled for the step, each repeated mult times in file-row order, without the mult column, and maintain the releaser invariant. "
-              "NOT proved (bounded): continuous mode (discretize: arange/join/ffill/explode) and the real pandas behaviour behind the assumed contracts.")
-LEVEL_NOTE = "pandas external: filter/len/unique/groupby/to_records/repeat/DataFrame/drop/rename contracts assumed and exercised by the bounded sweep (360 set-ups); discretize (continuous release) bounded only"
-TECHNIQUE = "contract-based deductive verification of update/__next__ over ghost release groups; bounded exhaustive run-time contract for the pandas pipeline"
-EXPLANATION = "Release step logic proved over ghost groups; the table pipeline (decisive for windows and continuous mode) is bounded, hence level 'other'."
+              "Continuous mode: discretize is proved to build the documented pipeline (ticks from the FIRST file time to the stop time every +-release_frequency, equality join, forward "
+              "fill, explode, types restored) from exactly the table it was given; the constructor feeds it all rows of the stop window (whatever their mult) and keeps the ticks from the "
+              "start time on; a lemma over the join/ffill contract shows that for file times on the tick grid tick k releases exactly the rows of the latest file time not after it. "
+              "NOT proved: the real pandas behaviour behind the assumed contracts (exercised by the bounded sweep).")
+LEVEL_NOTE = "pandas external: filter/len/unique/groupby/agg/join/ffill/explode/to_records/repeat/DataFrame/drop/rename contracts assumed (stated in contracts/release*.py) and exercised on the real library by the bounded sweep (432 set-ups); release tables sorted in simulation order, file times on the tick grid in continuous mode (the property's quantifier)"
+TECHNIQUE = "contract-based deductive verification over a ghost release table (constructor, discretize, clean_position, read_release_file, update/__next__; pandas under assumed contracts) + bounded exhaustive run-time contract on the real pandas pipeline"
+EXPLANATION = "Constructor (discrete and continuous), discretize and the release step proved over a ghost table under assumed pandas contracts; the real pandas behaviour is exercised by the bounded sweep."
 ASSUMPTIONS = ["release tables sorted in simulation order with times on the model time grid (the property's quantifier)"]
